@@ -87,8 +87,8 @@ func (w *world) checkViews(rc *core.RunCtx, m *actModel, kinds []string, after s
 		}
 		// nothing that is not active may resolve
 		for _, k := range kinds {
-			for x := 0; x < 3; x++ {
-				id := k + "/" + []string{"x0", "x1", "r/1"}[x]
+			for x := 0; x < len(actIDs); x++ {
+				id := k + "/" + actIDs[x]
 				if _, ok := m.active[id]; !ok {
 					if got := nd.c.GetActiveByID(id); got != nil {
 						rc.Violate("stale-entry/"+after, "after %s: node %s still resolves %s to %s", after, nd.id, id, pidS(got))
@@ -99,9 +99,13 @@ func (w *world) checkViews(rc *core.RunCtx, m *actModel, kinds []string, after s
 	}
 }
 
+// ids of activations: plain, containing the separator, and shapes that a path
+// cleaner would rewrite (they are distinct ids all the same)
+var actIDs = []string{"x0", "x1", "r/1", "r//1", "q/./2", "t/"}
+
 func runActivation(rc *core.RunCtx) {
 	g := simrt.G()
-	w := &world{rc: rc}
+	w := &world{rc: rc, ownEngineP: 0.3}
 	rc.PostRun = crashPost(rc, "C19")
 	simrt.SetBigInboxCap(1024)
 	simnet.Net().MaxLatency = g.Range(0, 3)
@@ -144,7 +148,7 @@ func runActivation(rc *core.RunCtx) {
 		switch g.Pick(6, 2, 2, 2, 2) {
 		case 0: // activate
 			k := allKinds[g.IntN(len(allKinds))]
-			x := []string{"x0", "x1", "r/1"}[g.IntN(3)] // ids may contain the separator
+			x := actIDs[g.Pick(4, 4, 3, 1, 1, 1)] // ids may contain the separator
 			id := k + "/" + x
 			r := g.IntN(3)
 			if g.Bool(0.3) {
@@ -229,7 +233,7 @@ func runActivation(rc *core.RunCtx) {
 			w.checkViews(rc, m, allKinds, "deactivate")
 		case 2: // cluster-aware spawn of an id not yet known
 			k := allKinds[g.IntN(len(allKinds))]
-			x := []string{"x0", "x1", "r/1"}[g.IntN(3)] // ids may contain the separator
+			x := actIDs[g.Pick(4, 4, 3, 1, 1, 1)] // ids may contain the separator
 			id := k + "/" + x
 			if _, ok := m.active[id]; ok {
 				continue
